@@ -295,6 +295,9 @@ class Folder:
             if getattr(base, "_folder_stub", False) and hasattr(base, n.attr):  # property of a rule-supplied stub (Enum member .name / .value)
                 return getattr(base, n.attr)
             raise NotConst(f"attribute {ast.unparse(n)}")
+        if isinstance(n.value, ast.Name) and n.value.id in self.local and any(isinstance(self.local[n.value.id], t) and name == n.attr for t, name in _METHODS):
+            # a pure method of a local plain container, not called here (`min(d, key=d.get)`): the bound method
+            return getattr(self.local[n.value.id], n.attr)
         if isinstance(n.value, ast.Name):
             k = (n.value.id, n.attr)
             mod = self.repo.module(self.module)
@@ -445,6 +448,10 @@ class Folder:
             for k in n.keywords:
                 if k.arg == "reverse" or f.id == "dict":
                     kw[k.arg] = self.fold(k.value)
+                elif k.arg in ("key", "default") and f.id in ("sorted", "max", "min") and f.id not in self.local:
+                    kw[k.arg] = self.fold(k.value)  # a lambda, a bound method of a local container, a rule-supplied callable
+                    if k.arg == "key" and not callable(kw[k.arg]):
+                        raise NotConst("key is not callable")
                 else:
                     raise NotConst("keyword")
             return fn(*args, **kw)
